@@ -388,6 +388,20 @@ func sweepC02(tier string, shard, shards int, emit func(C02Case)) {
 			}
 		}
 	}
+	// between over single-point, adjacent and inverted constant ranges, the value on and next to the bounds
+	for _, k := range []int64{0, 3, -1, math.MaxInt64 - 1, math.MinInt64 + 1} {
+		for _, d := range []int64{0, 1, -1} {
+			for _, x := range []int64{k, k - 1, k + 1, k + d} {
+				n++
+				if n%shards != shard {
+					continue
+				}
+				tree := wrapRoot(m.Op("between", m.Var("i0"), m.Const(k), m.Const(k+d)))
+				u := Universe{RegMode: RegGetOrReg, Vars: []VarDecl{{Name: "i0", Ty: m.TInt, Val: m.V{X: x}}}}
+				emit(C02Case{U: u, Tree: tree, Src: m.Render(tree)})
+			}
+		}
+	}
 }
 
 // c02Ask: what the 16 configurations make of a case (programs and outcomes), for the whole-run bracket.
